@@ -925,7 +925,9 @@ def normalize(ex, items):
             # writer: every live arm starts with a constant tag byte
             if ex.side == "w":
                 alt = {"i": "alt", "arms": {}, "node": node, "tagt": None, "dups": []}
-                ok = bool(live)
+                # only a dispatch over the variants of one of the repository's own enums is a tag dispatch
+                # (`match u8::try_from(x) { Ok(..) => .., Err(..) => .. }` is an encoding choice, not a tag)
+                ok = bool(live) and all((H.pat_variant(a["pat"]) or ("",))[0] and (H.pat_variant(a["pat"])[0] or "").startswith("duke::") for (a, _x) in live)
                 for (a, x) in live:
                     if len(x) == 1 and x[0].get("i") == "alt":
                         for tag, arm in x[0]["arms"].items():
